@@ -12,7 +12,9 @@
                          of a reassembly element deletes the sending element of its key
    An element is stored with deadline now + EXP (getValidUntil / Do / startSendingMessage /
    handleObserveResponse for a request without a context deadline - requests are issued
-   that way here; a context deadline only replaces now + EXP by an earlier instant).
+   that way here; a request whose context has a deadline is stored valid until THAT instant,
+   earlier or later than now + EXP: Blockwise/Deadline.v, which is this file when no request
+   has one).
    Everything else - createSendingMessage, the reassembly step, the messages - is shared
    with Model.v; the functions below are the same transcription of blockwise.go with the
    cache operations spelled out.  Blockwise/ProofsTimed.v relates the two. *)
@@ -229,10 +231,7 @@ Definition tsweep (t : Z) (e : tep) : tep :=
 (* ------------------------------------------------------------------------ *)
 (* the two endpoints, the network and the clock                                *)
 
-Inductive tev :=
-| Ev (e : ev)          (* an event of the untimed script *)
-| Age (d : Z)          (* d units of time pass (nothing is swept) *)
-| Sweep (atB : bool).  (* CheckExpirations now *)
+(* the script type [tev] = Ev e | Age d | Sweep side is pure scenario data: Blockwise/Config.v *)
 
 Record tworld := { twa : tep; twb : tep; tflight : list (bool * msg); twhist : list (bool * msg);
                    tvers : list (Z * Z); tpending : list (nat * Z); tnow : Z }.
